@@ -241,7 +241,8 @@ class TransformerRun(object):
     # statements ----------------------------------------------------------------------------------------
     def run(self):
         from sa import norm as _norm
-        self.block(_norm.split_tuple_locals(self.f.node).body)       # pairs held in a local, chained assignments: the statements they abbreviate
+        self._fn = _norm.split_tuple_locals(self.f.node)             # pairs held in a local, chained assignments: the statements they abbreviate
+        self.block(self._fn.body)
         return self
 
     def block(self, stmts):
@@ -256,7 +257,7 @@ class TransformerRun(object):
         # memo idiom (`if k in self.C: return self.C[k]` ... `self.C[k] = v`): the computation is interpreted as on a miss; whether the memo
         # may answer at all is R-CACHE's question (sa/rules/memo.py)
         from sa.rules import memo as _memo
-        mm = _memo.memo_of(self.f.node)
+        mm = _memo.memo_of(getattr(self, '_fn', None) or self.f.node)      # on the statements that are being interpreted (identity of nodes)
         if mm is not None and mm[4] == 'miss-fill':
             if st is mm[2]:
                 self.block(st.body)          # the computation, as on a miss
